@@ -72,7 +72,7 @@ func NewPlan(prop string, seed uint64, rng *rand.Rand) *sim.Plan {
 	p := &sim.Plan{Prop: prop, Seed: seed}
 	biases := []float64{0.02, 0.1, 0.3, 0.6}
 	p.Sched = sim.SchedCfg{Seed: splitmix(seed ^ 1), SwitchProb: biases[rng.IntN(len(biases))]}
-	p.Net = sim.NetCfg{Seed: splitmix(seed ^ 2), ChunkMode: rng.IntN(4), LatMinUs: 1, LatMaxUs: []int{5, 50, 500, 5000}[rng.IntN(4)]}
+	p.Net = sim.NetCfg{Seed: splitmix(seed ^ 2), ChunkMode: rng.IntN(4), LatMinUs: 1, LatMaxUs: []int{5, 50, 500, 5000}[rng.IntN(4)], ZeroLat: rng.IntN(4) == 0}
 	return p
 }
 
